@@ -18,7 +18,11 @@ thread_local! {
     static BUDGET: Cell<u64> = const { Cell::new(0) };
     static TICKS:  Cell<u64> = const { Cell::new(0) };
     static SITES:  RefCell<Vec<u64>> = RefCell::new(vec![0; N_SITES]);
+    static PHASE:  Cell<u32> = const { Cell::new(NO_PHASE) };
 }
+
+/// value of `BudgetExhausted::rule_type` while no sub-rule is being applied (lexing, parsing, word parsing, rendering)
+pub const NO_PHASE: u32 = 99;
 
 /// Payload of the unwind raised when the step budget of the current thread is spent.
 #[derive(Debug, Clone)]
@@ -28,17 +32,24 @@ pub struct BudgetExhausted {
     /// the site that ticked last
     pub last_site: u32,
     pub ticks: u64,
+    /// `RuleType as u32` of the sub-rule being applied (0 substitution, 1 metathesis, 2 deletion, 3 insertion), or `NO_PHASE`
+    pub rule_type: u32,
 }
 
 /// Sets the step budget for the current thread (0 = unlimited) and resets the counters.
 pub fn set_budget(n: u64) {
     BUDGET.with(|b| b.set(n));
     TICKS.with(|t| t.set(0));
+    PHASE.with(|p| p.set(NO_PHASE));
     SITES.with(|s| s.borrow_mut().iter_mut().for_each(|x| *x = 0));
 }
 
 /// Number of ticks since the last `set_budget`.
 pub fn ticks() -> u64 { TICKS.with(|t| t.get()) }
+
+/// Called at the head of `SubRule::apply` with the rule type of the sub-rule.
+#[inline]
+pub fn enter_subrule(rule_type: u32) { PHASE.with(|p| p.set(rule_type)); }
 
 #[inline]
 pub fn tick(site: u32) {
@@ -54,7 +65,7 @@ pub fn tick(site: u32) {
             best as u32
         });
         BUDGET.with(|b| b.set(0));
-        std::panic::resume_unwind(Box::new(BudgetExhausted { dominant_site: dominant, last_site: site, ticks: n }));
+        std::panic::resume_unwind(Box::new(BudgetExhausted { dominant_site: dominant, last_site: site, ticks: n, rule_type: PHASE.with(|p| p.get()) }));
     }
 }
 
